@@ -27,6 +27,7 @@ RULE = ('scripts assembled from 12 fragment kinds (code, single/double-quoted li
         'terminated ${..} only; executable scripts with 1-4 embedded queries (structure-derived paths, metadata) run at '
         'levels 0/1/2/4 by argument and by pragma on R-produced and sample messages.  Non-trivial = the script mixes >= 2 '
         'fragment kinds; distinct by SHA-1 of the script text (+ message for runs); scripts without expressions; pragma on a later header line / after a comma; `script` over two files')
+RULE += '; added with rounds 10-12: results of earlier runs of one runner re-read after later runs; scripts with a malformed path run three times on one runner; pragma lines with other blanks around `=`; twins'
 ASSUMPTIONS = ['scripts whose last ${ is unterminated are outside the stated space (counted, not judged)',
                'string literals are escape-free (statement\'s scope)',
                'variable names are only required to be valid, pairwise distinct identifiers (not a particular naming scheme)']
